@@ -106,5 +106,7 @@ def replay(ctx, path):
     rec = json.load(open(path))
     print(json.dumps({k: rec[k] for k in ("stage", "what")}, indent=1))
     spec = (rec.get("case") or {}).get("spec")
+    if rec.get("key") in ("dup:replicates", "fit_variogram") or not spec or "pos" not in spec:
+        spec = None          # generated probe families (replicates, auto-fit): re-run the whole check with the recorded seed
     run(ctx, only=spec)
     return ctx.finish()
